@@ -24,6 +24,9 @@ mod logs;
 mod main_event_loop;
 mod storage;
 mod template;
+#[cfg(feature = "breard_r_acmed_verif")]
+#[path = "/verif/sim/acmed/mod.rs"]
+mod verif;
 
 pub const APP_NAME: &str = "ACMEd";
 pub const APP_THREAD_NAME: &str = "acmed-runtime";
@@ -56,6 +59,10 @@ type AccountSync = Arc<RwLock<account::Account>>;
 type EndpointSync = Arc<RwLock<endpoint::Endpoint>>;
 
 fn main() {
+	#[cfg(feature = "breard_r_acmed_verif")]
+	if verif::dispatch() {
+		return;
+	}
 	Builder::new_multi_thread()
 		.enable_all()
 		.thread_name(APP_THREAD_NAME)
